@@ -6,7 +6,7 @@ from vlib.catobs import obligations
 def build(tier, seed):
     entries = [e for e in select(tier, exclude=("regex_lossy", "regex_nokeep", "alwaysoverlap", "rawcb")) if "P" not in e["tags"] or tier != "quick"]
     if tier == "quick":
-        entries = [e for e in entries if not ("marker" in e["tags"] and "sbl" in e["tags"])]
+        entries = [e for e in entries if not ("marker" in e["tags"] and "sbl" in e["tags"]) and "G" not in e["tags"]]
     obs = obligations("C02", entries, tier, "H.h_pack_parse(SPEC, CLS, globals(), raw, KEY)", offmax=0,
                       assertion="values := reference parse of a symbolic string (consistent by construction: lengths, counts, "
                                 "conditions, delimiter-free bodies); Cls(**values) and attribute assignment: pack() == in-order "
